@@ -126,6 +126,27 @@ var _ = strings.Contains
 //@                      len(r.locstack) == len(old(r.locstack)) + 1 &&
 //@                      (forall k RefKey :: vHas(r.refs, k) == (vHas(old(r.refs), k) || k == key))
 
+// Key / IsRoot read the location stack and parse URLs; they do not change the context. Not verified
+// (net/url): their results are arbitrary here.
+//@ func (r *ResolveCtx) Key(ref string) (key RefKey, err error)
+//@   trusted reads only (url.Parse, ResolveReference on the location stack); results unconstrained
+//@ func (r *ResolveCtx) IsRoot(key RefKey) (root bool)
+//@   trusted reads only; result unconstrained
+
+// View accessors for the contracts of OTHER packages (the fields of ResolveCtx are unexported):
+// remaining depth, "key is in progress", height of the location stack.
+func VerifDepth(r *ResolveCtx) int { return r.depthLimit }
+
+func VerifInProgress(r *ResolveCtx, k RefKey) bool {
+	_, ok := r.refs[k]
+	return ok
+}
+
+func VerifStack(r *ResolveCtx) int { return len(r.locstack) }
+
+// VerifWF: the context was built by NewResolveCtx (its in-progress set exists).
+func VerifWF(r *ResolveCtx) bool { return r.refs != nil }
+
 //@ func (r *ResolveCtx) Delete(key RefKey)
 //@   requires ctx:  r.refs != nil
 //@   requires room: r.depthLimit < 9223372036854775807
